@@ -55,6 +55,8 @@ pub fn cancel_strategy() -> BoxedStrategy<CancelCase> {
         // calls without a data effect of their own, which nevertheless touch indexes / the active blob on behalf of the caller
         2 => Just(Op::Free),
         2 => pred_strategy().prop_map(Op::ForceUpdate),
+        // queries: they change nothing, but they walk blobs whose index may have to be read (or loaded) meanwhile
+        3 => (0u8..3, 0u8..5).prop_map(|(key, kind)| Op::Probe { key, kind }),
     ];
     let cfg = (cfg_strategy(&[8, 33], true), prop::bool::weighted(0.6)).prop_map(|(mut c, current_thread)| {
         c.allow_dup = true;
@@ -185,6 +187,11 @@ pub fn run_cancel(c: &CancelCase, dir: &Path, findings: &Findings) -> Result<Cas
             }
             Op::ForceUpdate(p) => {
                 let (r, u) = poll_kb(s.force_update(*p), k, c.budget).await;
+                (r.map(|_| true), u)
+            }
+            Op::Probe { key, kind } => {
+                let kb = key_bytes(keylen, *key);
+                let (r, u) = poll_kb(crate::interp::run_probe(s, &kb, *kind), k, c.budget).await;
                 (r.map(|_| true), u)
             }
             _ => {
@@ -434,6 +441,9 @@ fn enum_cases(kmax: usize, thorough: bool, budgets: &[Option<u8>]) -> Vec<Cancel
         Op::Fsync,
         Op::Free,
         Op::ForceUpdate(crate::sut::Pred::Always),
+        Op::Probe { key: 0, kind: 0 },
+        Op::Probe { key: 1, kind: 1 },
+        Op::Probe { key: 0, kind: 3 },
     ];
     for (vi, victim) in victims.iter().enumerate() {
         for rt_workers in [0usize, 2] {
@@ -483,6 +493,9 @@ pub struct InitCase {
     pub lazy: bool,
     pub remove_idx: bool,
     pub suffix: Vec<Op>,
+    /// cooperative-budget units of the last poll (see CancelCase::budget)
+    #[serde(default)]
+    pub budget: Option<u8>,
 }
 
 pub fn init_strategy() -> BoxedStrategy<InitCase> {
@@ -495,8 +508,8 @@ pub fn init_strategy() -> BoxedStrategy<InitCase> {
         }
         c
     });
-    (cfg, prop::collection::vec(op_strategy(&pre), 1..pre.max_ops), 0u16..16, any::<bool>(), any::<bool>(), prop::collection::vec(op_strategy(&suf), 0..suf.max_ops))
-        .prop_map(|(cfg, prefix, k, lazy, remove_idx, suffix)| InitCase { cfg, prefix, k, lazy, remove_idx, suffix })
+    (cfg, prop::collection::vec(op_strategy(&pre), 1..pre.max_ops), (0u16..16, prop_oneof![2 => Just(None), 3 => (0u8..128).prop_map(Some)]), any::<bool>(), any::<bool>(), prop::collection::vec(op_strategy(&suf), 0..suf.max_ops))
+        .prop_map(|(cfg, prefix, (k, budget), lazy, remove_idx, suffix)| InitCase { cfg, prefix, k, lazy, remove_idx, suffix, budget })
         .boxed()
 }
 
@@ -521,7 +534,7 @@ pub fn run_init(c: &InitCase, dir: &Path, findings: &Findings) -> Result<CaseOut
                 }
             }
         }
-        let (s, info) = match sut::open_cancel_init(&c.cfg, dir, c.lazy, c.k as usize, &group).await {
+        let (s, info) = match sut::open_cancel_init(&c.cfg, dir, c.lazy, c.k as usize, c.budget, &group).await {
             Ok(x) => x,
             Err(e) => return ex.fail("cancel/init/reinit-err", format!("init of the same object after a dropped init failed: {:#}", e)),
         };
